@@ -4,6 +4,9 @@ open Nitime.C11.Props
 #print axioms lwr_length
 #print axioms lwr_solves
 #print axioms lwr_equivariant
+#print axioms marEst_intended_order
+#print axioms marEst_current_partial
+#print axioms marEst_current_counterexample
 #print axioms lwr_scalar_is_LD
 #print axioms crosscov_is_lagged_average
 #print axioms autocov_zero_hermitian
@@ -11,3 +14,5 @@ open Nitime.C11.Props
 #print axioms generateMar_recursion
 #print axioms fitModel_order_semantics
 #print axioms fitModel_fixed_order
+#print axioms lwr_sigma_order0
+#print axioms lwr_sigma_psd_order1
